@@ -28,7 +28,7 @@ var crossSolver map[string]interface{}
 func crossCheck(results []taskResult, specPaths map[*loadedGroup]string, seed, jobs int) map[string]interface{} {
 	var cands []taskResult
 	for _, r := range results {
-		if r.res.Error == "" && r.res.WallSec < 60 && r.res.Queries > 0 {
+		if r.res.Error == "" && r.res.WallSec < 30 && r.res.Queries > 0 {
 			cands = append(cands, r)
 		}
 	}
@@ -65,6 +65,7 @@ func crossCheck(results []taskResult, specPaths map[*loadedGroup]string, seed, j
 	}
 	res2 := runTasks(tasks, func(lg *loadedGroup) string { return alt[lg] }, jobs, 20*time.Minute, nil)
 	disagree := []string{}
+	noVerdict := []string{}
 	names := []string{}
 	for _, a := range pick {
 		names = append(names, a.task.name)
@@ -80,14 +81,20 @@ func crossCheck(results []taskResult, specPaths map[*loadedGroup]string, seed, j
 				sort.Strings(x)
 				return strings.Join(x, ";")
 			}
-			if b.res.Error != "" || a.res.Paths != b.res.Paths || a.res.Obligations != b.res.Obligations || ids(a.res) != ids(b.res) || len(b.res.Unknowns) > 0 {
+			if b.res.Error != "" || len(b.res.Unknowns) > 0 {
+				// the older solver ran out of time (or answered unknown) on queries the primary one decides: no second
+				// verdict for this harness - recorded, but not a disagreement
+				noVerdict = append(noVerdict, fmt.Sprintf("%s: z3 4.8.12 gave no verdict (%s, unknown=%d)", a.task.name, firstLine(b.res.Error), len(b.res.Unknowns)))
+				continue
+			}
+			if a.res.Paths != b.res.Paths || a.res.Obligations != b.res.Obligations || ids(a.res) != ids(b.res) {
 				disagree = append(disagree, fmt.Sprintf("%s: z3 5.1 paths=%d obl=%d sat=[%s]; z3 4.8.12 paths=%d obl=%d sat=[%s] err=%q unknown=%d", a.task.name,
 					a.res.Paths, a.res.Obligations, ids(a.res), b.res.Paths, b.res.Obligations, ids(b.res), firstLine(b.res.Error), len(b.res.Unknowns)))
 			}
 		}
 	}
-	fmt.Printf("== cross-solver (z3 4.8.12) on %v: %d disagreement(s)\n", names, len(disagree))
-	return map[string]interface{}{"second_solver": "z3 4.8.12 (/usr/bin/z3)", "harnesses": names, "disagreements": disagree}
+	fmt.Printf("== cross-solver (z3 4.8.12) on %v: %d disagreement(s), %d without a second verdict\n", names, len(disagree), len(noVerdict))
+	return map[string]interface{}{"second_solver": "z3 4.8.12 (/usr/bin/z3)", "harnesses": names, "disagreements": disagree, "no_second_verdict": noVerdict}
 }
 
 var nativeAssertRe = regexp.MustCompile(`VERIF-REPLAY: REPRODUCED assert "(native: [^"]*)"`)
